@@ -16,19 +16,23 @@ func init() {
 		ID:    "C14",
 		Title: "Concurrent clients see linearizable, race-free stores and index",
 		Explanation: "Decided (lock discipline only, a necessary condition for race freedom): " +
-			"L-guard — for every (struct type, mutex, field) of the frozen guard table, every read of the field (load, map lookup/range, slice index/len, passing the container to a call) executes with that object's mutex held for R or W and every write (store, map update/delete, slice element store, append-and-store) with it held for W, on every CFG path (must-hold lockset); the lockset at function entry is empty except for unexported functions all of whose static call sites hold the lock (meet over callers, least fixpoint) and functions declared lock-requiring (L-locked); objects allocated in the same function and not yet published are exempt; a field nobody writes after construction needs no lock for reads. " +
+			"L-guard — for every (struct type, mutex, field) of the frozen guard table, every read of the field (load, map lookup/range, slice index/len, passing the container to a call) executes with that object's mutex held for R or W and every write (store, map update/delete, slice element store, append-and-store) with it held for W, on every CFG path (must-hold lockset); the lockset at function entry is empty except for unexported functions all of whose static call sites hold the lock (meet over callers, least fixpoint) and functions declared lock-requiring (L-locked); objects allocated in the same function and not yet published are exempt; a field nobody writes after construction needs no lock for reads. A guarded field's address handed to a function is a write unless the callee's body only reads through that parameter. For a guarded field that holds a pointer to a struct, every statically resolved call that passes the loaded pointer (method calls on the field) is classified from the callee's body by a receiver-access summary: does it store / update a map / call a mutator through memory reachable from that parameter, transitively (depth 7), outside an exclusive lock the callee takes itself? Such a call is a write of the guarded state (W lock needed at the call, also after the pointer was copied to a local); a call that only reads is a read once some mutating call exists. Branches on construction-only bool fields of the pointee (lru.Cache.nolock) and on constant bool arguments are pruned using the configuration the stored object was constructed with. Callees that hand the state to atomics, sync.Once/Cond/WaitGroup, channels, interface or dynamic calls are NOT classified (no obligation). " +
 			"L-locked — every call site of a function that requires a lock by contract (name ends in 'Locked', doc comment says the lock must be held, or a heap.Interface callback of a mutex-embedding heap) holds that lock in the mode the callee's body needs, or operates on a not-yet-published object. " +
+			"L-unsync — enumerated: every struct field, in non-test module code, that holds a pointer to a lock-configurable type (a struct with its own sync.Mutex/RWMutex some method of which skips the acquisition depending on a bool field that is only ever stored on objects under construction — today internal/lru.Cache with nolock); the configuration of every value stored into the field is derived from its construction (composite literal / new = zero, constant stores dominating the use, through constructor calls to depth 4; by what the constructors do, not by their names). If every stored object locks itself nothing is required of the owner. Otherwise every call on the field whose body (under that configuration) mutates the object must run with a mutex of the owning object held exclusively — sync.Mutex.Lock or RWMutex.Lock; RLock does not count because two read-lock holders run concurrently — every call that only reads it with that mutex held in any mode, on every CFG path (owner not yet published: exempt), and one mutex must be common to all mutating sites. The pointer leaving the owner's methods (stored, returned, passed on, captured) or a construction that cannot be followed is Undecided. " +
+			"L-rlock — table-free contradiction check: enumerated are the accesses to every non-table, non-sync field of every module struct that has a sync.RWMutex field, and to package-level variables of packages that declare a package-level sync.RWMutex. An access that is a definite write (store, map update/delete, clear, copy-into, in-place element write, address passed to a callee whose body writes through it, or a call on the pointed-to object whose body mutates it outside a lock of its own) and executes with that owner's RWMutex held for reading while no lock at all is held exclusively (must-hold lockset incl. inferred entry locksets) is a violation: the read side admits several holders, so the section can run twice at once. Reads, atomics and not-classified callees under RLock are accepted. " +
 			"L-corpus — the in-memory corpus has no mutex of its own; the lock is abstracted to one token INDEX (Lock/RLock on *index.Index, on its mu field, or through an interface with Lock/Unlock/RLock/RUnlock such as index.Interface). Contract functions (callers must hold INDEX): every *index.Corpus method, every *index.LocationHelper method, the *index.Index methods of index.Interface, and search.Handler methods named *Locked. Enumerated: every site in non-contract module code that calls, goes, defers, invokes through an interface, or takes the function value of a contract function that (transitively) touches Corpus fields. Decided: INDEX is held at the site on every CFG path, or the enclosing function is only ever entered with INDEX held — every static call, function-value reference and possible interface dispatch of it in the module is itself under INDEX or in a function with that property (greatest fixpoint; a function nothing in the module refers to is an entry point and is not assumed locked). Stated assumptions: a function literal or goroutine created while INDEX is held runs while it is held (the join before the unlock is not decided); a function value is entered where it is created. " +
-			"NOT decided: absence of races on state not listed in the guard table; direct reads of Corpus fields from Index methods outside index.Interface (HasLegacySHA1, signerRefs); the R/W mode of the index lock around corpus mutation; that goroutines started under the index lock are joined before it is released; VTA confirmation of dynamic call edges (not used); atomicity of check-then-act sequences, lost updates, deadlock freedom, linearizability against the reference map, any concrete schedule.",
+			"NOT decided: absence of races on state that is neither in the guard table nor a field of an RWMutex-carrying struct / a lock-configurable object; unsynchronised containers that never had a lock of their own and sit in unguarded fields (container/list, bytes.Buffer, plain maps in structs without a table entry) when accessed with NO lock at all; mutation reached only through interface/dynamic calls or through callees using atomics/sync primitives (not classified); lock-configurable objects held by value, in locals, globals, maps or slices rather than in a struct field; path feasibility beyond constant bool flags (a mutating branch that cannot execute still counts); direct reads of Corpus fields from Index methods outside index.Interface (HasLegacySHA1, signerRefs); the R/W mode of the index lock around corpus mutation reached through L-corpus (L-rlock sees only statically resolved Corpus calls on Index.corpus); that goroutines started under the index lock are joined before it is released; VTA confirmation of dynamic call edges (not used); atomicity of check-then-act sequences, lost updates, deadlock freedom, linearizability against the reference map, any concrete schedule.",
 		RuleDocs: map[string]string{
-			"L-guard":  "every access (per function × guarded field) of the guard table's fields in module code: must-hold lockset contains the owning object's mutex (R for reads, W for writes), or the object is fresh, or the field has no post-construction writer",
+			"L-guard":  "every access (per function × guarded field) of the guard table's fields in module code, incl. statically resolved calls on the object a guarded pointer field points to (mode from the callee's body: writes through its receiver outside its own exclusive lock ⇒ write): must-hold lockset contains the owning object's mutex (R for reads, W for writes), or the object is fresh, or the field has no post-construction writer",
 			"L-locked": "every static call site (and heap.* call for heap callbacks) of a lock-requiring function holds the named lock in the mode the callee needs, or the receiver is fresh",
+			"L-unsync": "every struct field holding a pointer to a lock-configurable object (own mutex skipped under a construction-only bool flag; configuration derived from the reaching constructors' bodies): one obligation per field (self-locking in every construction, or all sites locked by one common owner mutex) and, when some stored object does not lock itself, one per call site on the field: mutating calls (by body) hold a mutex of the owner exclusively — RLock is not enough — reading calls hold it in any mode",
+			"L-rlock":  "every function × field of an RWMutex-carrying module struct (non-table fields) or package-level variable next to a package-level RWMutex, with accesses that run under only the read side of that RWMutex and no exclusive lock: none of them is a definite write (store, map update/delete, in-place write, callee/method whose body writes through the field or the object it points to)",
 			"L-corpus": "every call / go / defer / interface invoke / function-value site, in non-contract code, of a corpus-touching contract function (*Corpus and *LocationHelper methods, index.Interface methods of *Index, search.Handler *Locked methods): the index lock is held at the site or the enclosing function is only ever entered with it held (all entry sites in the module, greatest fixpoint)",
 		},
 		Run:       runC14,
 		DesignRef: "DESIGN.md §4 C14",
-		Technique: "static analysis: must-hold lockset dataflow over go/ssa with inter-procedural entry locksets (meet over static callers, entry-site fixpoint for the index lock), type-resolved guard table, freshness (escape) exemption",
-		LevelText: "Decides lock discipline only: listed guarded fields are accessed, lock-requiring functions are called, and corpus-reading methods are reached only with the owning mutex held on every CFG path. Does not decide races on unlisted state, atomicity, lost updates or linearizability.",
+		Technique: "static analysis: must-hold lockset dataflow over go/ssa with inter-procedural entry locksets (meet over static callers, entry-site fixpoint for the index lock), type-resolved guard table, freshness (escape) exemption, body-derived receiver-access summaries (transitive writes through a parameter outside the callee's own exclusive lock, on a CFG pruned by construction-time configuration flags and constant bool arguments), constructor-reaching configuration of lock-configurable objects",
+		LevelText: "Decides lock discipline only: listed guarded fields are accessed, lock-requiring functions are called, and corpus-reading methods are reached only with the owning mutex held on every CFG path; objects configured not to lock themselves are mutated only under an exclusive lock of their owner; nothing is definitely written while only the read side of its struct's (or package's) RWMutex is held. Does not decide races on other state, unclassified (dynamic / atomics-based) callees, atomicity, lost updates or linearizability.",
 	})
 }
 
@@ -136,7 +140,27 @@ type c14Event struct {
 	mode    byte
 	what    string
 	inplace bool // a 'W' that mutates a slice's backing array in place
+	// soft: a 'W' by default only — the address is handed to code whose effect is
+	// not established (atomics, synchronisation primitives, dynamic calls). L-guard
+	// keeps demanding the write lock; L-rlock claims definite mutations only.
+	soft bool
+	// pointee: an access to the object a guarded pointer field points to (a call
+	// of a method whose body reads/writes through its receiver), not to the field.
+	pointee bool
 }
+
+func c14Ev(at ssa.Instruction, mode byte, what string, inplace bool) c14Event {
+	return c14Event{at: at, mode: mode, what: what, inplace: inplace}
+}
+
+// Hooks set per run (they need the program-wide summaries):
+// c14PointeeHook adds the accesses made to the object a loaded pointer field
+// points to; c14AddrCallHook refines the default "callee may write" of a field
+// address handed to a call using the callee's body.
+var (
+	c14PointeeHook  func(fa *ssa.FieldAddr, ld *ssa.UnOp, out *[]c14Event)
+	c14AddrCallHook func(c CallSite, addr ssa.Value, ev *c14Event)
+)
 
 func c14IsContainer(t types.Type) bool {
 	switch t.Underlying().(type) {
@@ -171,15 +195,18 @@ func c14AddrEvents(addr ssa.Value, elem bool, out *[]c14Event, seen map[ssa.Valu
 		switch x := u.(type) {
 		case *ssa.Store:
 			if x.Addr == addr {
-				*out = append(*out, c14Event{x, 'W', map[bool]string{false: "store", true: "element store"}[elem], elem})
+				*out = append(*out, c14Ev(x, 'W', map[bool]string{false: "store", true: "element store"}[elem], elem))
 			} else {
-				*out = append(*out, c14Event{x, 'W', "address stored elsewhere", elem})
+				*out = append(*out, c14Event{at: x, mode: 'W', what: "address stored elsewhere", inplace: elem, soft: true})
 			}
 		case *ssa.UnOp:
 			if x.Op == token.MUL {
-				*out = append(*out, c14Event{x, rd, map[bool]string{false: "load", true: "element load"}[elem], false})
+				*out = append(*out, c14Ev(x, rd, map[bool]string{false: "load", true: "element load"}[elem], false))
 				if !elem && c14IsContainer(x.Type()) {
 					c14ValueEvents(x, out, seen)
+				}
+				if fa, ok := addr.(*ssa.FieldAddr); ok && !elem && c14PointeeHook != nil {
+					c14PointeeHook(fa, x, out)
 				}
 			}
 		case *ssa.FieldAddr:
@@ -187,13 +214,17 @@ func c14AddrEvents(addr ssa.Value, elem bool, out *[]c14Event, seen map[ssa.Valu
 		case *ssa.IndexAddr:
 			c14AddrEvents(x, elem, out, seen) // element of a guarded array-typed field
 		case *ssa.Slice:
-			*out = append(*out, c14Event{x, rd, "slice of array", false})
+			*out = append(*out, c14Ev(x, rd, "slice of array", false))
 		case ssa.CallInstruction:
-			// &field handed to a call: the callee may write through it
-			*out = append(*out, c14Event{x, 'W', "address passed to " + (CallSite{x.Parent(), x}).CalleeKey(), elem})
+			// &field handed to a call: the callee may write through it, unless its body shows otherwise
+			ev := c14Event{at: x, mode: 'W', what: "address passed to " + (CallSite{x.Parent(), x}).CalleeKey(), inplace: elem, soft: true}
+			if c14AddrCallHook != nil {
+				c14AddrCallHook(CallSite{x.Parent(), x}, addr, &ev)
+			}
+			*out = append(*out, ev)
 		case *ssa.DebugRef:
 		default:
-			*out = append(*out, c14Event{u, 'W', fmt.Sprintf("address used by %T", u), elem})
+			*out = append(*out, c14Event{at: u, mode: 'W', what: fmt.Sprintf("address used by %T", u), inplace: elem, soft: true})
 		}
 	}
 }
@@ -218,18 +249,18 @@ func c14ValueEvents(v ssa.Value, out *[]c14Event, seen map[ssa.Value]bool) {
 		switch x := u.(type) {
 		case *ssa.MapUpdate:
 			if x.Map == v {
-				*out = append(*out, c14Event{x, 'W', "map update", false})
+				*out = append(*out, c14Ev(x, 'W', "map update", false))
 			}
 		case *ssa.Lookup:
 			if x.X == v {
-				*out = append(*out, c14Event{x, 'R', "map lookup", false})
+				*out = append(*out, c14Ev(x, 'R', "map lookup", false))
 			}
 		case *ssa.Range:
-			*out = append(*out, c14Event{x, rd, "range", false})
+			*out = append(*out, c14Ev(x, rd, "range", false))
 			if rr := x.Referrers(); rr != nil {
 				for _, n := range *rr {
 					if nx, ok := n.(*ssa.Next); ok {
-						*out = append(*out, c14Event{nx, rd, "range step", false})
+						*out = append(*out, c14Ev(nx, rd, "range step", false))
 					}
 				}
 			}
@@ -239,14 +270,14 @@ func c14ValueEvents(v ssa.Value, out *[]c14Event, seen map[ssa.Value]bool) {
 			}
 		case *ssa.Slice:
 			if x.X == v {
-				*out = append(*out, c14Event{x, rd, "reslice", false})
+				*out = append(*out, c14Ev(x, rd, "reslice", false))
 				if x.High != nil && slice {
 					// `f = f[:n]` kept in a field: a later append overwrites elements an older header copy still sees
 					if rr := x.Referrers(); rr != nil {
 						for _, ru := range *rr {
 							if st, ok := ru.(*ssa.Store); ok && st.Val == ssa.Value(x) {
 								if _, isField := st.Addr.(*ssa.FieldAddr); isField {
-									*out = append(*out, c14Event{st, 'W', "truncating reslice stored back (later appends overwrite in place)", true})
+									*out = append(*out, c14Ev(st, 'W', "truncating reslice stored back (later appends overwrite in place)", true))
 								}
 							}
 						}
@@ -272,7 +303,7 @@ func c14ValueEvents(v ssa.Value, out *[]c14Event, seen map[ssa.Value]bool) {
 			if _, isField := x.Addr.(*ssa.FieldAddr); isField && c14StoreIsGuardedWrite != nil && c14StoreIsGuardedWrite(x) {
 				continue // stored (back) into a guarded field: that store is itself a checked write
 			}
-			*out = append(*out, c14Event{x, 'x', "reference stored elsewhere", false})
+			*out = append(*out, c14Ev(x, 'x', "reference stored elsewhere", false))
 		case ssa.CallInstruction:
 			c := CallSite{x.Parent(), x}
 			cc := x.Common()
@@ -281,36 +312,36 @@ func c14ValueEvents(v ssa.Value, out *[]c14Event, seen map[ssa.Value]bool) {
 				case "len", "cap":
 					// reads the (already loaded) header only
 				case "delete":
-					*out = append(*out, c14Event{x, 'W', "map delete", false})
+					*out = append(*out, c14Ev(x, 'W', "map delete", false))
 				case "append":
-					*out = append(*out, c14Event{x, rd, "append (may copy the elements)", false})
+					*out = append(*out, c14Ev(x, rd, "append (may copy the elements)", false))
 				case "copy":
 					if len(cc.Args) > 0 && cc.Args[0] == v {
-						*out = append(*out, c14Event{x, 'W', "copy into", true})
+						*out = append(*out, c14Ev(x, 'W', "copy into", true))
 					} else {
-						*out = append(*out, c14Event{x, rd, "copy from", false})
+						*out = append(*out, c14Ev(x, rd, "copy from", false))
 					}
 				case "clear":
-					*out = append(*out, c14Event{x, 'W', "clear", slice})
+					*out = append(*out, c14Ev(x, 'W', "clear", slice))
 				default:
-					*out = append(*out, c14Event{x, rd, "builtin " + b.Name(), false})
+					*out = append(*out, c14Ev(x, rd, "builtin "+b.Name(), false))
 				}
 				continue
 			}
 			// handed to a callee: it reads the container while we hold (or do not hold) the lock;
 			// for a slice the callee may also reorder/overwrite elements in place
-			*out = append(*out, c14Event{x, 'R', "container passed to " + c.CalleeKey(), false})
+			*out = append(*out, c14Ev(x, 'R', "container passed to "+c.CalleeKey(), false))
 			if slice && !c14ReadOnlySliceCallee(c, v) {
-				*out = append(*out, c14Event{x, 'W', "slice passed to " + c.CalleeKey() + " (may write elements in place)", true})
+				*out = append(*out, c14Event{at: x, mode: 'W', what: "slice passed to " + c.CalleeKey() + " (may write elements in place)", inplace: true, soft: true})
 			}
 		case *ssa.Return:
-			*out = append(*out, c14Event{x, 'x', "reference returned", false})
+			*out = append(*out, c14Ev(x, 'x', "reference returned", false))
 		case *ssa.MakeInterface:
-			*out = append(*out, c14Event{x, 'x', "reference boxed in an interface", false})
+			*out = append(*out, c14Ev(x, 'x', "reference boxed in an interface", false))
 		case *ssa.Send:
-			*out = append(*out, c14Event{x, 'x', "reference sent on a channel", false})
+			*out = append(*out, c14Ev(x, 'x', "reference sent on a channel", false))
 		case *ssa.MakeClosure:
-			*out = append(*out, c14Event{x, 'x', "reference captured by a literal", false})
+			*out = append(*out, c14Ev(x, 'x', "reference captured by a literal", false))
 		case *ssa.DebugRef:
 		}
 	}
@@ -379,7 +410,7 @@ func c14ParamReadOnly(fn *ssa.Function, idx, depth int) bool {
 
 type c14FreshInfo struct {
 	published map[ssa.Value]map[ssa.Instruction]bool // instructions that run after some publication
-	leakMemo  map[c14LeakKey]int                      // 0 unknown, 1 in progress, 2 no leak, 3 leaks
+	leakMemo  map[c14LeakKey]int                     // 0 unknown, 1 in progress, 2 no leak, 3 leaks
 }
 
 type c14LeakKey struct {
@@ -597,6 +628,8 @@ type c14Ctx struct {
 	guards map[*types.Named]map[int]*c14FieldSpec
 	elig   map[*ssa.Function]bool
 	eligOK map[*ssa.Function]bool
+	// extraRoots: functions touching state checked by L-unsync / L-rlock (their entry locksets are inferred too)
+	extraRoots []*ssa.Function
 }
 
 func c14NewCtx(p *Program) *c14Ctx {
@@ -791,10 +824,10 @@ func (cx *c14Ctx) inferEntries(roots []*ssa.Function) {
 // L-locked: lock-requiring functions
 
 type c14Req struct {
-	fn     *ssa.Function
-	path   string // callee-side lock path, e.g. "&x.mu"
-	why    string
-	need   byte // mode the body needs: 'R' or 'W' (computed)
+	fn      *ssa.Function
+	path    string // callee-side lock path, e.g. "&x.mu"
+	why     string
+	need    byte // mode the body needs: 'R' or 'W' (computed)
 	viaHeap bool
 }
 
@@ -821,10 +854,17 @@ func runC14(p *Program, r *Reporter) {
 		return n != nil && guards[n][fa.Field] != nil
 	}
 	t0 := time.Now()
+	sm := c14NewSumm(p, cx)
+	c14InstallHooks(sm)
+	unsyncAccs, rlAccs, extraRoots := c14ScanOwned(p, sm, guards)
+	cx.extraRoots = extraRoots
 	c14RuleGuardAndLocked(p, r, cx, guards)
 	t1 := time.Now()
+	c14RuleUnsync(p, r, cx, sm, unsyncAccs)
+	c14RuleRLock(p, r, cx, rlAccs)
+	t2 := time.Now()
 	c14RuleCorpus(p, r, cx)
-	r.Note("rule time after loading: L-guard+L-locked %.2fs, L-corpus %.2fs", t1.Sub(t0).Seconds(), time.Since(t1).Seconds())
+	r.Note("rule time after loading: L-guard+L-locked %.2fs, L-unsync+L-rlock %.2fs, L-corpus %.2fs", t1.Sub(t0).Seconds(), t2.Sub(t1).Seconds(), time.Since(t2).Seconds())
 }
 
 type c14Access struct {
@@ -874,6 +914,7 @@ func c14RuleGuardAndLocked(p *Program, r *Reporter, cx *c14Ctx, guards map[*type
 			roots = append(roots, TopFunc(c.Fn))
 		}
 	}
+	roots = append(roots, cx.extraRoots...)
 	sort.Slice(roots, func(i, j int) bool { return FuncKey(roots[i]) < FuncKey(roots[j]) })
 	cx.inferEntries(roots)
 
@@ -884,11 +925,19 @@ func c14RuleGuardAndLocked(p *Program, r *Reporter, cx *c14Ctx, guards map[*type
 	}
 	postWrite := map[fkey]string{}
 	inPlace := map[fkey]string{}
+	pointeeWrite := map[fkey]string{} // fields whose pointed-to object has an unsynchronised mutator called on it
 	for _, a := range accs {
 		for _, ev := range a.evs {
 			if ev.mode == 'W' && !cx.fresh.freshAt(a.fa.X, ev.at) {
 				k := fkey{a.spec.named, a.spec.idx}
-				where := FuncKey(a.fn) + " (" + p.Pos(ev.at.Pos()) + ")"
+				where := FuncKey(a.fn) + " (" + p.Pos(c14InstrPos(ev.at)) + ")"
+				if ev.pointee {
+					// the pointed-to object is mutated, the field itself is not
+					if _, ok := pointeeWrite[k]; !ok {
+						pointeeWrite[k] = where
+					}
+					continue
+				}
 				if _, ok := postWrite[k]; !ok {
 					postWrite[k] = where
 				}
@@ -925,7 +974,7 @@ func c14RuleGuardAndLocked(p *Program, r *Reporter, cx *c14Ctx, guards map[*type
 		top := TopFunc(k.fn)
 		li := cx.lockInfo(top)
 		var bad, undec []string
-		nFresh, nHeld, nNoWriter, nWO, nElem := 0, 0, 0, 0, 0
+		nFresh, nHeld, nNoWriter, nWO, nElem, nPtrRead := 0, 0, 0, 0, 0, 0
 		var lockNames []string
 		exc, hasExc := c14GuardExceptions[construct]
 		excOK := false
@@ -967,7 +1016,13 @@ func c14RuleGuardAndLocked(p *Program, r *Reporter, cx *c14Ctx, guards map[*type
 					undec = append(undec, fmt.Sprintf("%s at %s: the %s is shared with code this rule does not follow", ev.what, p.Pos(ev.at.Pos()), map[bool]string{true: "slice (written in place by " + inPlace[fk] + ")", false: "map"}[c14IsSlice(a.fa.Type().(*types.Pointer).Elem())]))
 					continue
 				}
-				if mode == 'R' {
+				if ev.pointee && mode == 'R' {
+					// a reading method of the pointed-to object conflicts only with its mutators
+					if _, w := pointeeWrite[fk]; !w {
+						nPtrRead++
+						continue
+					}
+				} else if mode == 'R' {
 					if _, ok := spec.g.writeOnly[spec.field]; ok {
 						nWO++
 						continue
@@ -992,7 +1047,9 @@ func c14RuleGuardAndLocked(p *Program, r *Reporter, cx *c14Ctx, guards map[*type
 					need = "for writing"
 				}
 				msg := fmt.Sprintf("%s of %s.%s at %s without %s held %s (held: %s; entry lockset of %s: %s)", ev.what, spec.g.typ, spec.field, p.Pos(ev.at.Pos()), lock, need, held, FuncKey(top), c14EntryDesc(cx, top))
-				if mode == 'R' {
+				if mode == 'R' && ev.pointee {
+					msg += "; races with the mutating call in " + pointeeWrite[fk]
+				} else if mode == 'R' {
 					msg += "; races with the write in " + postWrite[fk]
 					if ev.mode == 'e' {
 						msg += " / in-place " + inPlace[fk]
@@ -1014,7 +1071,7 @@ func c14RuleGuardAndLocked(p *Program, r *Reporter, cx *c14Ctx, guards map[*type
 		case len(undec) > 0:
 			r.Undecided("L-guard", construct, site, strings.Join(undec, " | "))
 		default:
-			d := fmt.Sprintf("%d access event(s): %d with %s held", nFresh+nHeld+nNoWriter+nWO+nElem, nHeld, strings.Join(dedupe(lockNames), ","))
+			d := fmt.Sprintf("%d access event(s): %d with %s held", nFresh+nHeld+nNoWriter+nWO+nElem+nPtrRead, nHeld, strings.Join(dedupe(lockNames), ","))
 			if e := cx.entry[top]; len(e) > 0 && nHeld > 0 {
 				d += " (entry lockset " + c14EntryDesc(cx, top) + ")"
 			}
@@ -1029,6 +1086,9 @@ func c14RuleGuardAndLocked(p *Program, r *Reporter, cx *c14Ctx, guards map[*type
 			}
 			if nWO > 0 {
 				d += fmt.Sprintf(", %d read(s) exempt: %s", nWO, spec.g.writeOnly[spec.field])
+			}
+			if nPtrRead > 0 {
+				d += fmt.Sprintf(", %d call(s) that only read the pointed-to object, which no call mutates without a lock of its own", nPtrRead)
 			}
 			if nHeld == 0 && nFresh == 0 {
 				r.OKTable("L-guard", construct, site, d)
@@ -1868,4 +1928,1464 @@ func c14InstrPos(in ssa.Instruction) token.Pos {
 		return ci.Common().Pos()
 	}
 	return token.NoPos
+}
+
+// ---------------------------------------------------------------------------
+// Access summaries (body-derived): what a function does to the memory reachable
+// from one of its parameters *outside the locks it takes itself*. Used to tell
+// mutating from reading method calls on guarded objects and to recognise
+// objects that were configured, at construction, not to lock themselves
+// (lru.NewUnlocked). Nothing here goes by method or constructor names.
+
+// c14Cfg fixes the value of construction-only bool fields of the struct a
+// parameter points to (field index -> value); branches on them are pruned.
+type c14Cfg map[int]bool
+
+func (c c14Cfg) key() string {
+	if c == nil {
+		return "?"
+	}
+	var ks []int
+	for k := range c {
+		ks = append(ks, k)
+	}
+	sort.Ints(ks)
+	var sb strings.Builder
+	for _, k := range ks {
+		fmt.Fprintf(&sb, "%d=%v,", k, c[k])
+	}
+	return sb.String()
+}
+
+func c14CfgDesc(c c14Cfg, T *types.Named) string {
+	if c == nil {
+		return "unknown configuration"
+	}
+	st, _ := T.Underlying().(*types.Struct)
+	var ks []int
+	for k := range c {
+		ks = append(ks, k)
+	}
+	sort.Ints(ks)
+	var parts []string
+	for _, k := range ks {
+		name := fmt.Sprint(k)
+		if st != nil && k < st.NumFields() {
+			name = st.Field(k).Name()
+		}
+		parts = append(parts, fmt.Sprintf("%s=%v", name, c[k]))
+	}
+	return strings.Join(parts, ",")
+}
+
+// c14Sum: the effect of one function on parameter-reachable memory.
+type c14Sum struct {
+	write, read string // witness of a write / read not covered by a lock the function acquires itself (write: exclusive)
+	syncUnk     string // parameter-reachable state is handed to synchronisation this analysis does not model (atomics, sync.Once/Cond/WaitGroup, channels, Locker interfaces)
+	dynUnk      string // … or to code it cannot follow (interface/dynamic calls, bodyless functions, depth bound, literals)
+	optOut      string // an acquisition of a mutex inside the parameter's object is unreachable under the configuration
+	retDerived  bool   // a result may point into parameter-reachable memory
+}
+
+// mode: 'W' the function definitely writes unsynchronised; 'R' it only reads
+// (fully followed); 'N' fully followed, every access under its own lock (or no
+// access at all); '?' not established.
+func (s *c14Sum) mode() byte {
+	switch {
+	case s.syncUnk != "":
+		return '?'
+	case s.write != "":
+		return 'W'
+	case s.dynUnk != "":
+		return '?'
+	case s.read != "":
+		return 'R'
+	}
+	return 'N'
+}
+
+func (s *c14Sum) unknownWhy() string {
+	if s.syncUnk != "" {
+		return s.syncUnk
+	}
+	return s.dynUnk
+}
+
+type c14SumKey struct {
+	fn  *ssa.Function
+	idx int
+	cfg string
+	pc  string
+}
+
+// c14ConstArgs: the bool parameters of the callee that are constants at call
+// site c (also constants the caller itself was entered with), so that
+// `find(key, false)`-style flags select the branch actually taken.
+func c14ConstArgs(c CallSite, callerPC c14Cfg) c14Cfg {
+	var pc c14Cfg
+	for k, a := range c.Args() {
+		val, known := false, false
+		switch x := a.(type) {
+		case *ssa.Const:
+			if b, ok := x.Type().Underlying().(*types.Basic); ok && b.Info()&types.IsBoolean != 0 && x.Value != nil {
+				val, known = x.Value.String() == "true", true
+			}
+		case *ssa.Parameter:
+			for i, prm := range c.Fn.Params {
+				if prm == x {
+					if v, ok := callerPC[i]; ok {
+						val, known = v, true
+					}
+				}
+			}
+		}
+		if known {
+			if pc == nil {
+				pc = c14Cfg{}
+			}
+			pc[k] = val
+		}
+	}
+	return pc
+}
+
+type c14FieldKey struct {
+	owner *types.Named
+	idx   int
+}
+
+// c14Reach: one way a value of a configurable type reaches a struct field.
+type c14Reach struct {
+	cfg     c14Cfg // nil: unknown
+	via     string
+	unknown string
+}
+
+type c14Summ struct {
+	p          *Program
+	cx         *c14Ctx
+	memo       map[c14SumKey]*c14Sum
+	cfgFields  map[*types.Named]map[int]bool // construction-only bool fields, verified
+	ptrStores  map[c14FieldKey][]*ssa.Store  // stores of pointers-to-struct into struct fields, module-wide
+	fieldReach map[c14FieldKey][]c14Reach
+	configur   map[*types.Named]int // 1 yes, 2 no
+}
+
+func c14NewSumm(p *Program, cx *c14Ctx) *c14Summ {
+	return &c14Summ{p: p, cx: cx, memo: map[c14SumKey]*c14Sum{}, cfgFields: map[*types.Named]map[int]bool{},
+		fieldReach: map[c14FieldKey][]c14Reach{}, configur: map[*types.Named]int{}}
+}
+
+func c14FnPkgPath(f *ssa.Function) string {
+	if f == nil {
+		return ""
+	}
+	if f.Pkg != nil {
+		return f.Pkg.Pkg.Path()
+	}
+	if o := f.Object(); o != nil && o.Pkg() != nil {
+		return o.Pkg().Path()
+	}
+	if o := f.Origin(); o != nil && o != f {
+		return c14FnPkgPath(o)
+	}
+	return ""
+}
+
+// c14IsSyncFn: functions of the synchronisation packages (other than the
+// Mutex/RWMutex operations, which the locksets model).
+func c14IsSyncFn(f *ssa.Function) bool {
+	switch pp := c14FnPkgPath(f); {
+	case pp == "sync", pp == "sync/atomic", pp == "runtime", pp == "internal/sync", strings.HasPrefix(pp, "internal/runtime"), pp == "go4.org/syncutil", pp == "go4.org/syncutil/singleflight", pp == "golang.org/x/sync/errgroup", pp == "golang.org/x/sync/singleflight":
+		return true
+	}
+	return false
+}
+
+func c14PointerLike(t types.Type, depth int) bool {
+	if depth > 4 {
+		return true
+	}
+	switch u := t.Underlying().(type) {
+	case *types.Pointer, *types.Map, *types.Slice, *types.Chan, *types.Interface, *types.Signature:
+		return true
+	case *types.Struct:
+		for i := 0; i < u.NumFields(); i++ {
+			if c14PointerLike(u.Field(i).Type(), depth+1) {
+				return true
+			}
+		}
+	case *types.Array:
+		return c14PointerLike(u.Elem(), depth+1)
+	case *types.Tuple:
+		for i := 0; i < u.Len(); i++ {
+			if c14PointerLike(u.At(i).Type(), depth+1) {
+				return true
+			}
+		}
+	}
+	return false
+}
+
+func c14StructOf(t types.Type) (*types.Named, *types.Struct) {
+	n := NamedOf(t)
+	if n == nil {
+		return nil, nil
+	}
+	st, _ := n.Underlying().(*types.Struct)
+	if st == nil {
+		return nil, nil
+	}
+	return n, st
+}
+
+func c14IsMutexType(t types.Type) bool {
+	return IsNamed(t, "sync", "Mutex") || IsNamed(t, "sync", "RWMutex")
+}
+
+func (sm *c14Summ) sum(fn *ssa.Function, idx int, cfg, pc c14Cfg, depth int) *c14Sum {
+	if fn == nil || len(fn.Blocks) == 0 || idx >= len(fn.Params) {
+		name := "a function without a body"
+		if fn != nil {
+			name = FuncKeyAny(fn) + " (no body)"
+		}
+		return &c14Sum{dynUnk: "calls " + name}
+	}
+	if depth > 7 {
+		return &c14Sum{dynUnk: "call depth bound reached at " + FuncKeyAny(fn)}
+	}
+	k := c14SumKey{fn, idx, cfg.key(), pc.key()}
+	if s, ok := sm.memo[k]; ok {
+		if s == nil {
+			return &c14Sum{} // recursion: the outer activation accounts for the body
+		}
+		return s
+	}
+	sm.memo[k] = nil
+	s := sm.compute(fn, idx, cfg, pc, depth)
+	sm.memo[k] = s
+	return s
+}
+
+func (sm *c14Summ) compute(fn *ssa.Function, idx int, cfg, pc c14Cfg, depth int) *c14Sum {
+	s := &c14Sum{}
+	param := fn.Params[idx]
+	pname := param.Name()
+	pT, _ := c14StructOf(param.Type())
+
+	// (1) feasible blocks under cfg and must-hold locksets on the pruned CFG
+	var eval func(v ssa.Value, d int) (known, val bool)
+	eval = func(v ssa.Value, d int) (bool, bool) {
+		if d > 6 {
+			return false, false
+		}
+		switch x := v.(type) {
+		case *ssa.Const:
+			if b, ok := x.Type().Underlying().(*types.Basic); ok && b.Info()&types.IsBoolean != 0 && x.Value != nil {
+				return true, x.Value.String() == "true"
+			}
+		case *ssa.Parameter:
+			for i, prm := range fn.Params {
+				if prm == x {
+					if b, ok := pc[i]; ok {
+						return true, b
+					}
+				}
+			}
+		case *ssa.UnOp:
+			switch x.Op {
+			case token.NOT:
+				k, b := eval(x.X, d+1)
+				return k, !b
+			case token.MUL:
+				if fa, ok := x.X.(*ssa.FieldAddr); ok && cfg != nil && originValue(fa.X) == ssa.Value(param) {
+					if b, ok := cfg[fa.Field]; ok {
+						return true, b
+					}
+				}
+			}
+		case *ssa.BinOp:
+			if x.Op == token.EQL || x.Op == token.NEQ {
+				ka, a := eval(x.X, d+1)
+				kb, b := eval(x.Y, d+1)
+				if ka && kb {
+					return true, (a == b) == (x.Op == token.EQL)
+				}
+			}
+		}
+		return false, false
+	}
+	succs := func(b *ssa.BasicBlock) []*ssa.BasicBlock {
+		if len(b.Instrs) > 0 {
+			if br, ok := b.Instrs[len(b.Instrs)-1].(*ssa.If); ok && len(b.Succs) == 2 {
+				if k, v := eval(br.Cond, 0); k {
+					if v {
+						return b.Succs[:1]
+					}
+					return b.Succs[1:2]
+				}
+			}
+		}
+		return b.Succs
+	}
+	in := map[*ssa.BasicBlock]LockSet{fn.Blocks[0]: {}}
+	out := map[*ssa.BasicBlock]LockSet{}
+	before := map[ssa.Instruction]LockSet{}
+	transfer := func(b *ssa.BasicBlock, record bool) LockSet {
+		cur := in[b].clone()
+		for _, ins := range b.Instrs {
+			if record {
+				before[ins] = cur.clone()
+			}
+			ci, ok := ins.(ssa.CallInstruction)
+			if !ok {
+				continue
+			}
+			c := CallSite{fn, ci}
+			if c.IsDefer() || c.IsGo() {
+				continue
+			}
+			if op, p, ok := lockEffect(c); ok {
+				switch op {
+				case "Lock":
+					cur[p] = 'W'
+				case "RLock":
+					cur[p] = 'R'
+				default:
+					delete(cur, p)
+				}
+			}
+		}
+		return cur
+	}
+	work := []*ssa.BasicBlock{fn.Blocks[0]}
+	for n := 0; len(work) > 0 && n < 20000; n++ {
+		b := work[0]
+		work = work[1:]
+		o := transfer(b, false)
+		if prev, ok := out[b]; ok && equalLS(prev, o) {
+			continue
+		}
+		out[b] = o
+		for _, sc := range succs(b) {
+			ni := o.clone()
+			if cur, ok := in[sc]; ok {
+				ni = meet(cur, o)
+				if equalLS(cur, ni) {
+					if _, done := out[sc]; done {
+						continue
+					}
+				}
+			}
+			in[sc] = ni
+			work = append(work, sc)
+		}
+	}
+	feasible := func(b *ssa.BasicBlock) bool { _, ok := in[b]; return ok }
+	for _, b := range fn.Blocks {
+		if feasible(b) {
+			transfer(b, true)
+			continue
+		}
+		// an acquisition of the object's own mutex that the configuration rules out
+		for _, ins := range b.Instrs {
+			if ci, ok := ins.(ssa.CallInstruction); ok {
+				if op, p, ok := lockEffect(CallSite{fn, ci}); ok && (op == "Lock" || op == "RLock") && strings.HasPrefix(p, "&"+pname+".") && s.optOut == "" {
+					s.optOut = fmt.Sprintf("%s of %s in %s is unreachable when %s", op, p, FuncKeyAny(fn), c14CfgDesc(cfg, pT))
+				}
+			}
+		}
+	}
+	held := func(at ssa.Instruction, needW bool) bool {
+		for path, m := range before[at] {
+			if !strings.HasPrefix(path, "&"+pname+".") && !strings.HasPrefix(path, "&global:") {
+				continue
+			}
+			if !needW || m == 'W' {
+				return true
+			}
+		}
+		return false
+	}
+	noteW := func(at ssa.Instruction, what string) {
+		if feasible(at.Block()) && !held(at, true) && s.write == "" {
+			s.write = what + " in " + FuncKeyAny(fn)
+		}
+	}
+	noteR := func(at ssa.Instruction, what string) {
+		if feasible(at.Block()) && !held(at, false) && s.read == "" {
+			s.read = what + " in " + FuncKeyAny(fn)
+		}
+	}
+	noteSync := func(at ssa.Instruction, what string) {
+		if feasible(at.Block()) && s.syncUnk == "" {
+			s.syncUnk = what + " in " + FuncKeyAny(fn)
+		}
+	}
+	noteDyn := func(at ssa.Instruction, what string) {
+		if feasible(at.Block()) && !held(at, true) && s.dynUnk == "" {
+			s.dynUnk = what + " in " + FuncKeyAny(fn)
+		}
+	}
+
+	// (2) forward closure of the values that point into parameter-reachable memory
+	seen := map[ssa.Value]bool{}
+	var walk func(v ssa.Value)
+	var walkLocal func(a ssa.Value) // a: address of / inside a local copy
+	walkLocal = func(a ssa.Value) {
+		if seen[a] {
+			return
+		}
+		seen[a] = true
+		refs := a.Referrers()
+		if refs == nil {
+			return
+		}
+		for _, u := range *refs {
+			switch x := u.(type) {
+			case *ssa.FieldAddr:
+				walkLocal(x)
+			case *ssa.IndexAddr:
+				walkLocal(x)
+			case *ssa.UnOp:
+				if x.Op == token.MUL && c14PointerLike(x.Type(), 0) {
+					walk(x)
+				}
+			}
+		}
+	}
+	walk = func(v ssa.Value) {
+		if seen[v] {
+			return
+		}
+		seen[v] = true
+		refs := v.Referrers()
+		if refs == nil {
+			return
+		}
+		for _, u := range *refs {
+			switch x := u.(type) {
+			case *ssa.FieldAddr:
+				if x.X == v {
+					walk(x)
+				}
+			case *ssa.IndexAddr:
+				if x.X == v {
+					walk(x)
+				}
+			case *ssa.Field:
+				if c14PointerLike(x.Type(), 0) {
+					walk(x)
+				}
+			case *ssa.Index:
+				if x.X == v && c14PointerLike(x.Type(), 0) {
+					walk(x)
+				}
+			case *ssa.UnOp:
+				switch x.Op {
+				case token.MUL:
+					exempt := false
+					if fa, ok := v.(*ssa.FieldAddr); ok {
+						if n, _ := c14StructOf(fa.X.Type()); n != nil && sm.cfgFieldsOf(n)[fa.Field] {
+							exempt = true // fixed at construction: not a racy read
+						}
+					}
+					if !exempt {
+						noteR(x, "load of "+AccessPath(v))
+					}
+					if c14PointerLike(x.Type(), 0) {
+						walk(x)
+					}
+				case token.ARROW:
+					noteSync(x, "channel receive")
+				}
+			case *ssa.Store:
+				if x.Addr == v {
+					noteW(x, "store to "+AccessPath(v))
+				}
+				if x.Val == v {
+					if al, ok := x.Addr.(*ssa.Alloc); ok && !al.Heap {
+						walkLocal(al)
+					} else if al, ok := x.Addr.(*ssa.Alloc); ok && plainVariable(al) {
+						followVar(al, func(ld *ssa.UnOp) {
+							if ld.Parent() != fn {
+								noteDyn(x, "reachable state captured by a function literal")
+								return
+							}
+							walk(ld)
+						})
+					}
+				}
+			case *ssa.MapUpdate:
+				if x.Map == v {
+					noteW(x, "map update of "+AccessPath(v))
+				}
+			case *ssa.Lookup:
+				if x.X == v {
+					noteR(x, "map lookup in "+AccessPath(v))
+					if c14PointerLike(x.Type(), 0) {
+						walk(x)
+					}
+				}
+			case *ssa.Range:
+				noteR(x, "range over "+AccessPath(v))
+				walk(x)
+			case *ssa.Next:
+				walk(x)
+			case *ssa.Extract:
+				if c14PointerLike(x.Type(), 0) {
+					walk(x)
+				}
+			case *ssa.Phi:
+				walk(x)
+			case *ssa.ChangeType:
+				walk(x)
+			case *ssa.ChangeInterface:
+				walk(x)
+			case *ssa.MakeInterface:
+				walk(x)
+			case *ssa.TypeAssert:
+				if c14PointerLike(x.Type(), 0) {
+					walk(x)
+				}
+			case *ssa.Slice:
+				if x.X == v {
+					walk(x)
+				}
+			case *ssa.Convert:
+				if c14IsContainer(v.Type()) {
+					noteR(x, "conversion of "+AccessPath(v))
+				}
+			case *ssa.MakeClosure:
+				noteDyn(x, "reachable state captured by a function literal")
+			case *ssa.Send:
+				noteSync(x, "channel send")
+			case *ssa.Select:
+				noteSync(x, "select")
+			case *ssa.Return:
+				s.retDerived = true
+			case ssa.CallInstruction:
+				c := CallSite{fn, x}
+				if _, _, ok := lockEffect(c); ok {
+					continue
+				}
+				cc := x.Common()
+				if c.IsGo() {
+					noteDyn(x, "reachable state handed to a new goroutine")
+					continue
+				}
+				if b, ok := cc.Value.(*ssa.Builtin); ok {
+					switch b.Name() {
+					case "delete":
+						if len(cc.Args) > 0 && cc.Args[0] == v {
+							noteW(x, "map delete in "+AccessPath(v))
+						}
+					case "clear":
+						noteW(x, "clear of "+AccessPath(v))
+					case "copy":
+						if len(cc.Args) > 0 && cc.Args[0] == v {
+							noteW(x, "copy into "+AccessPath(v))
+						} else {
+							noteR(x, "copy from "+AccessPath(v))
+						}
+					case "append":
+						noteR(x, "append from "+AccessPath(v))
+						if len(cc.Args) > 0 && cc.Args[0] == v {
+							if cv, ok := x.(*ssa.Call); ok {
+								walk(cv) // may share the backing array
+							}
+						}
+					}
+					continue
+				}
+				if held(x, true) {
+					continue // the callee runs under the exclusive lock taken here
+				}
+				if cc.IsInvoke() {
+					switch cc.Method.Name() {
+					case "Lock", "Unlock", "RLock", "RUnlock", "Wait", "Signal", "Broadcast", "Done":
+						noteSync(x, "interface call "+c.CalleeKey())
+					default:
+						noteDyn(x, "interface call "+c.CalleeKey())
+					}
+					continue
+				}
+				callee := c.Callee()
+				if callee == nil {
+					noteDyn(x, "dynamic call")
+					continue
+				}
+				if c14IsSyncFn(callee) {
+					noteSync(x, "call of "+FuncKeyAny(callee))
+					continue
+				}
+				for j, arg := range c.Args() {
+					if arg != v {
+						continue
+					}
+					var ccfg c14Cfg
+					if cfg != nil && j < len(callee.Params) && originValue(arg) == ssa.Value(param) && types.Identical(arg.Type(), callee.Params[j].Type()) {
+						ccfg = cfg
+					}
+					sub := sm.sum(callee, j, ccfg, c14ConstArgs(c, pc), depth+1)
+					if sub.write != "" && s.write == "" && feasible(x.Block()) {
+						s.write = sub.write
+					}
+					if sub.read != "" && s.read == "" && feasible(x.Block()) && !held(x, false) {
+						s.read = sub.read
+					}
+					if sub.syncUnk != "" && s.syncUnk == "" && feasible(x.Block()) {
+						s.syncUnk = sub.syncUnk
+					}
+					if sub.dynUnk != "" && s.dynUnk == "" && feasible(x.Block()) {
+						s.dynUnk = sub.dynUnk
+					}
+					if sub.optOut != "" && s.optOut == "" && feasible(x.Block()) {
+						s.optOut = sub.optOut
+					}
+					if cv, ok := x.(*ssa.Call); ok && sub.retDerived {
+						walk(cv)
+					}
+				}
+			}
+		}
+	}
+	if _, isPtr := param.Type().Underlying().(*types.Pointer); isPtr || c14PointerLike(param.Type(), 0) {
+		walk(param)
+	}
+	return s
+}
+
+// cfgFieldsOf: the bool fields of struct type T that are only ever stored on
+// objects still under construction (verified over T's package and the module).
+func (sm *c14Summ) cfgFieldsOf(T *types.Named) map[int]bool {
+	if m, ok := sm.cfgFields[T]; ok {
+		return m
+	}
+	m := map[int]bool{}
+	sm.cfgFields[T] = m
+	st, _ := T.Underlying().(*types.Struct)
+	if st == nil || T.Obj().Pkg() == nil {
+		return m
+	}
+	hasMu := false
+	for i := 0; i < st.NumFields(); i++ {
+		if b, ok := st.Field(i).Type().Underlying().(*types.Basic); ok && b.Kind() == types.Bool {
+			m[i] = true
+		}
+		if c14IsMutexType(st.Field(i).Type()) {
+			hasMu = true
+		}
+	}
+	if !hasMu || len(m) == 0 {
+		for k := range m {
+			delete(m, k)
+		}
+		return m
+	}
+	fns := append([]*ssa.Function{}, sm.p.AllFuncs...)
+	if sp := sm.p.SSA.Package(T.Obj().Pkg()); sp != nil && !strings.HasPrefix(T.Obj().Pkg().Path(), modPrefix) {
+		fns = append(fns, c14PkgFuncs(sm.p, sp)...)
+	}
+	for _, f := range fns {
+		for _, b := range f.Blocks {
+			for _, in := range b.Instrs {
+				stx, ok := in.(*ssa.Store)
+				if !ok {
+					continue
+				}
+				fa, ok := stx.Addr.(*ssa.FieldAddr)
+				if !ok || !m[fa.Field] {
+					continue
+				}
+				if n, _ := c14StructOf(fa.X.Type()); n != T {
+					continue
+				}
+				if !sm.cx.fresh.freshAt(fa.X, stx) {
+					delete(m, fa.Field)
+				}
+			}
+		}
+	}
+	return m
+}
+
+func c14PkgFuncs(p *Program, sp *ssa.Package) []*ssa.Function {
+	var out []*ssa.Function
+	seen := map[*ssa.Function]bool{}
+	var add func(f *ssa.Function)
+	add = func(f *ssa.Function) {
+		if f == nil || seen[f] || len(f.Blocks) == 0 {
+			return
+		}
+		seen[f] = true
+		out = append(out, f)
+		for _, a := range f.AnonFuncs {
+			add(a)
+		}
+	}
+	for _, m := range sp.Members {
+		switch m := m.(type) {
+		case *ssa.Function:
+			add(m)
+		case *ssa.Type:
+			for _, t := range []types.Type{m.Type(), types.NewPointer(m.Type())} {
+				ms := p.SSA.MethodSets.MethodSet(t)
+				for i := 0; i < ms.Len(); i++ {
+					add(p.SSA.MethodValue(ms.At(i)))
+				}
+			}
+		}
+	}
+	return out
+}
+
+// methodsOf: the declared methods (pointer method set) of T.
+func (sm *c14Summ) methodsOf(T *types.Named) []*ssa.Function {
+	var out []*ssa.Function
+	ms := sm.p.SSA.MethodSets.MethodSet(types.NewPointer(T))
+	for i := 0; i < ms.Len(); i++ {
+		if f := sm.p.SSA.MethodValue(ms.At(i)); f != nil && f.Synthetic == "" && len(f.Blocks) > 0 {
+			out = append(out, f)
+		}
+	}
+	return out
+}
+
+// lockConfigurable: T has a mutex of its own whose acquisition some method
+// skips depending on a construction-only bool field.
+func (sm *c14Summ) lockConfigurable(T *types.Named) bool {
+	if v := sm.configur[T]; v != 0 {
+		return v == 1
+	}
+	sm.configur[T] = 2
+	cf := sm.cfgFieldsOf(T)
+	if len(cf) == 0 {
+		return false
+	}
+	for _, m := range sm.methodsOf(T) {
+		for b := range cf {
+			for _, val := range []bool{false, true} {
+				if sm.sum(m, 0, c14Cfg{b: val}, nil, 0).optOut != "" {
+					sm.configur[T] = 1
+					return true
+				}
+			}
+		}
+	}
+	return false
+}
+
+// valueCfg: the configurations a value of type *T used at `at` may have been
+// constructed with: composite literal / new (zero bools + dominating constant
+// stores), or the result of a function returning such a value (bounded depth),
+// refined by constant stores that dominate the use.
+func (sm *c14Summ) valueCfg(v ssa.Value, T *types.Named, at ssa.Instruction, depth int) []c14Reach {
+	cf := sm.cfgFieldsOf(T)
+	if IsNilConst(v) {
+		return nil
+	}
+	o := originValue(v)
+	apply := func(rs []c14Reach) []c14Reach {
+		fn := at.Parent()
+		for _, b := range fn.Blocks {
+			for _, in := range b.Instrs {
+				stx, ok := in.(*ssa.Store)
+				if !ok {
+					continue
+				}
+				fa, ok := stx.Addr.(*ssa.FieldAddr)
+				if !ok || !cf[fa.Field] || originValue(fa.X) != o {
+					continue
+				}
+				for i := range rs {
+					if rs[i].cfg == nil {
+						continue
+					}
+					c, isConst := stx.Val.(*ssa.Const)
+					if isConst && c.Value != nil && (stx.Block() == at.Block() && Precedes(stx, at) || stx.Block() != at.Block() && stx.Block().Dominates(at.Block())) {
+						nc := c14Cfg{}
+						for k, vv := range rs[i].cfg {
+							nc[k] = vv
+						}
+						nc[fa.Field] = c.Value.String() == "true"
+						rs[i].cfg = nc
+						rs[i].via += ", then " + fieldName(fa.X.Type(), fa.Field) + "=" + c.Value.String() + " in " + FuncKeyAny(fn)
+					} else {
+						nc := c14Cfg{}
+						for k, vv := range rs[i].cfg {
+							if k != fa.Field {
+								nc[k] = vv
+							}
+						}
+						rs[i].cfg = nc
+					}
+				}
+			}
+		}
+		return rs
+	}
+	switch x := o.(type) {
+	case *ssa.Alloc:
+		if n, _ := c14StructOf(x.Type()); n == T && x.Parent() == at.Parent() {
+			c := c14Cfg{}
+			for k := range cf {
+				c[k] = false
+			}
+			return apply([]c14Reach{{cfg: c, via: "allocated in " + FuncKeyAny(x.Parent())}})
+		}
+	case *ssa.Call:
+		g := x.Call.StaticCallee()
+		if g != nil && len(g.Blocks) > 0 && depth < 4 && x.Parent() == at.Parent() {
+			var rs []c14Reach
+			for _, ri := range Returns(g) {
+				if len(ri.Results) != 1 {
+					return []c14Reach{{unknown: "multi-result constructor " + FuncKeyAny(g)}}
+				}
+				for _, sub := range sm.valueCfg(ri.Results[0], T, ri.Ret, depth+1) {
+					if sub.cfg != nil {
+						nc := c14Cfg{}
+						for k, vv := range sub.cfg {
+							nc[k] = vv
+						}
+						sub.cfg = nc
+					}
+					sub.via = FuncKeyAny(g) + " ← " + sub.via
+					rs = append(rs, sub)
+				}
+			}
+			if len(rs) == 0 {
+				return []c14Reach{{unknown: FuncKeyAny(g) + " has no followed result"}}
+			}
+			return apply(rs)
+		}
+	case *ssa.Phi:
+		var rs []c14Reach
+		for _, e := range x.Edges {
+			rs = append(rs, sm.valueCfg(e, T, at, depth+1)...)
+		}
+		return rs
+	}
+	return []c14Reach{{unknown: fmt.Sprintf("value of unknown construction (%s) in %s", AccessPath(v), FuncKey(at.Parent()))}}
+}
+
+func (sm *c14Summ) indexPtrStores() {
+	if sm.ptrStores != nil {
+		return
+	}
+	sm.ptrStores = map[c14FieldKey][]*ssa.Store{}
+	for _, f := range sm.p.AllFuncs {
+		if IsTestSupportPkg(RelPkg(TopFunc(f).Pkg.Pkg)) {
+			continue
+		}
+		for _, b := range f.Blocks {
+			for _, in := range b.Instrs {
+				stx, ok := in.(*ssa.Store)
+				if !ok {
+					continue
+				}
+				fa, ok := stx.Addr.(*ssa.FieldAddr)
+				if !ok {
+					continue
+				}
+				if _, isPtr := stx.Val.Type().Underlying().(*types.Pointer); !isPtr {
+					continue
+				}
+				if n, _ := c14StructOf(fa.X.Type()); n != nil {
+					k := c14FieldKey{n, fa.Field}
+					sm.ptrStores[k] = append(sm.ptrStores[k], stx)
+				}
+			}
+		}
+	}
+}
+
+// reachOf: how the objects stored in owner.field (of type *T) are constructed.
+func (sm *c14Summ) reachOf(k c14FieldKey, T *types.Named) []c14Reach {
+	if r, ok := sm.fieldReach[k]; ok {
+		return r
+	}
+	sm.indexPtrStores()
+	var rs []c14Reach
+	seen := map[string]bool{}
+	for _, stx := range sm.ptrStores[k] {
+		for _, r := range sm.valueCfg(stx.Val, T, stx, 0) {
+			if r.cfg != nil && len(r.cfg) < len(sm.cfgFieldsOf(T)) {
+				r.cfg, r.unknown = nil, " (a configuration flag is not a constant on every path)"
+			}
+			r.via = "stored by " + FuncKey(stx.Parent()) + ": " + r.via
+			key := r.cfg.key() + "|" + r.via + "|" + r.unknown
+			if !seen[key] {
+				seen[key] = true
+				rs = append(rs, r)
+			}
+		}
+	}
+	sm.fieldReach[k] = rs
+	return rs
+}
+
+// c14PointeeUse: one use of a pointer loaded from a struct field.
+type c14PointeeUse struct {
+	at     ssa.Instruction
+	callee *ssa.Function // static callee with a body, the pointer being argument j
+	j      int
+	escape string // non-empty: the pointer leaves the function's view
+}
+
+func c14PointeeUses(ld ssa.Value) []c14PointeeUse {
+	var out []c14PointeeUse
+	seen := map[ssa.Value]bool{}
+	var walk func(v ssa.Value)
+	walk = func(v ssa.Value) {
+		if seen[v] {
+			return
+		}
+		seen[v] = true
+		refs := v.Referrers()
+		if refs == nil {
+			return
+		}
+		for _, u := range *refs {
+			switch x := u.(type) {
+			case *ssa.Phi:
+				walk(x)
+			case *ssa.ChangeType:
+				walk(x)
+			case *ssa.FieldAddr, *ssa.BinOp, *ssa.If, *ssa.DebugRef, *ssa.UnOp:
+				// direct field access of the pointee / nil comparison: not a method call
+			case *ssa.Store:
+				if x.Val != v {
+					continue
+				}
+				if al, ok := x.Addr.(*ssa.Alloc); ok && plainVariable(al) {
+					followVar(al, func(l *ssa.UnOp) { walk(l) })
+					continue
+				}
+				if fa, ok := x.Addr.(*ssa.FieldAddr); ok {
+					if l, ok := ld.(*ssa.UnOp); ok {
+						if src, ok := l.X.(*ssa.FieldAddr); ok && src.Field == fa.Field && types.Identical(src.X.Type(), fa.X.Type()) {
+							continue // copied into the same field of another object of the owner type
+						}
+					}
+				}
+				out = append(out, c14PointeeUse{at: x, escape: "stored elsewhere"})
+			case ssa.CallInstruction:
+				c := CallSite{x.Parent(), x}
+				callee := c.Callee()
+				found := false
+				for j, a := range c.Args() {
+					if a == v {
+						found = true
+						if callee != nil && len(callee.Blocks) > 0 && !c.IsGo() && !x.Common().IsInvoke() {
+							out = append(out, c14PointeeUse{at: x, callee: callee, j: j})
+						} else {
+							out = append(out, c14PointeeUse{at: x, escape: "passed to " + c.CalleeKey()})
+						}
+					}
+				}
+				if !found {
+					out = append(out, c14PointeeUse{at: x, escape: "used by " + c.CalleeKey()})
+				}
+			case *ssa.Return:
+				out = append(out, c14PointeeUse{at: x, escape: "returned"})
+			case *ssa.MakeInterface:
+				out = append(out, c14PointeeUse{at: x, escape: "boxed in an interface"})
+			case *ssa.MakeClosure:
+				out = append(out, c14PointeeUse{at: x, escape: "captured by a function literal"})
+			case *ssa.Send:
+				out = append(out, c14PointeeUse{at: x, escape: "sent on a channel"})
+			default:
+				if in, ok := u.(ssa.Instruction); ok {
+					out = append(out, c14PointeeUse{at: in, escape: fmt.Sprintf("used by %T", u)})
+				}
+			}
+		}
+	}
+	walk(ld)
+	return out
+}
+
+// classify a call of callee (pointer = argument j) on an object that may have
+// any of the configurations in reach: the worst mode, its witness, and whether
+// the object was configured not to lock itself.
+func (sm *c14Summ) classify(callee *ssa.Function, j int, reach []c14Reach, pc c14Cfg) (mode byte, why string, optOut string) {
+	cfgs := []c14Cfg{nil}
+	if len(reach) > 0 {
+		cfgs = cfgs[:0]
+		for _, r := range reach {
+			cfgs = append(cfgs, r.cfg)
+		}
+	}
+	rank := map[byte]int{'N': 0, 'R': 1, '?': 2, 'W': 3}
+	mode = 'N'
+	for _, cfg := range cfgs {
+		s := sm.sum(callee, j, cfg, pc, 0)
+		if s.optOut != "" && optOut == "" {
+			optOut = s.optOut
+		}
+		m := s.mode()
+		if rank[m] > rank[mode] || why == "" && m == mode {
+			mode = m
+			switch m {
+			case 'W':
+				why = s.write
+			case 'R':
+				why = s.read
+			case '?':
+				why = s.unknownWhy()
+			}
+		}
+	}
+	return
+}
+
+// c14InstallHooks wires the summaries into the L-guard event extraction.
+func c14InstallHooks(sm *c14Summ) {
+	c14PointeeHook = func(fa *ssa.FieldAddr, ld *ssa.UnOp, out *[]c14Event) {
+		pt, ok := ld.Type().Underlying().(*types.Pointer)
+		if !ok {
+			return
+		}
+		T, _ := c14StructOf(pt.Elem())
+		owner, _ := c14StructOf(fa.X.Type())
+		if T == nil || owner == nil {
+			return
+		}
+		var reach []c14Reach
+		if sm.lockConfigurable(T) {
+			reach = sm.reachOf(c14FieldKey{owner, fa.Field}, T)
+		}
+		for _, u := range c14PointeeUses(ld) {
+			if u.callee == nil {
+				continue
+			}
+			mode, why, _ := sm.classify(u.callee, u.j, reach, c14ConstArgs(CallSite{u.at.Parent(), u.at.(ssa.CallInstruction)}, nil))
+			switch mode {
+			case 'W':
+				*out = append(*out, c14Event{at: u.at, mode: 'W', pointee: true, what: "call of " + FuncKeyAny(u.callee) + " on the object the field points to, which mutates it without a lock of its own (" + why + ")"})
+			case 'R':
+				*out = append(*out, c14Event{at: u.at, mode: 'R', pointee: true, what: "call of " + FuncKeyAny(u.callee) + " on the object the field points to, which reads it without a lock of its own (" + why + ")"})
+			}
+		}
+	}
+	c14AddrCallHook = func(c CallSite, addr ssa.Value, ev *c14Event) {
+		if _, _, ok := lockEffect(c); ok {
+			return
+		}
+		callee := c.Callee()
+		if callee == nil || len(callee.Blocks) == 0 || c.IsGo() || c.Common().IsInvoke() || c14IsSyncFn(callee) {
+			return
+		}
+		worst := byte('N')
+		why := ""
+		for j, a := range c.Args() {
+			if a != addr {
+				continue
+			}
+			s := sm.sum(callee, j, nil, c14ConstArgs(c, nil), 0)
+			switch s.mode() {
+			case 'W':
+				worst, why = 'W', s.write
+			case '?':
+				if worst != 'W' {
+					worst = '?'
+				}
+			case 'R':
+				if worst == 'N' {
+					worst, why = 'R', s.read
+				}
+			}
+		}
+		switch worst {
+		case 'W':
+			ev.soft = false
+			ev.what = "address passed to " + FuncKeyAny(callee) + ", which writes through it (" + why + ")"
+		case 'R', 'N':
+			ev.mode, ev.soft = 'R', false
+			ev.what = "address passed to " + FuncKeyAny(callee) + ", which only reads through it"
+		}
+	}
+}
+
+// ---------------------------------------------------------------------------
+// L-unsync and L-rlock
+
+type c14OwnedAccess struct {
+	fn    *ssa.Function
+	fa    *ssa.FieldAddr
+	owner *types.Named
+	T     *types.Named // L-unsync: the configurable pointee type
+}
+
+func c14InModuleType(n *types.Named) bool {
+	return n != nil && n.Obj().Pkg() != nil && strings.HasPrefix(n.Obj().Pkg().Path(), modPrefix) && !IsTestSupportPkg(RelPkg(n.Obj().Pkg()))
+}
+
+// c14RWFields: names of the sync.RWMutex fields (also embedded) of struct type n.
+func c14RWFields(n *types.Named) []string {
+	st, _ := n.Underlying().(*types.Struct)
+	var out []string
+	for i := 0; st != nil && i < st.NumFields(); i++ {
+		if IsNamed(st.Field(i).Type(), "sync", "RWMutex") {
+			out = append(out, st.Field(i).Name())
+		}
+	}
+	return out
+}
+
+func c14IsSyncType(t types.Type) bool {
+	if pt, ok := t.Underlying().(*types.Pointer); ok {
+		t = pt.Elem()
+	}
+	n := NamedOf(t)
+	if n == nil || n.Obj().Pkg() == nil {
+		return false
+	}
+	switch n.Obj().Pkg().Path() {
+	case "sync", "sync/atomic", "go4.org/syncutil", "go4.org/syncutil/singleflight", "golang.org/x/sync/errgroup", "golang.org/x/sync/singleflight":
+		return true
+	}
+	return false
+}
+
+// c14ScanOwned enumerates, over non-test module code, (a) accesses to struct
+// fields holding a pointer to a lock-configurable type (L-unsync) and (b)
+// accesses to the non-table fields of structs that have a sync.RWMutex
+// (L-rlock). The containing functions become roots of the entry-lockset inference.
+func c14ScanOwned(p *Program, sm *c14Summ, guards map[*types.Named]map[int]*c14FieldSpec) (unsync, rl []c14OwnedAccess, roots []*ssa.Function) {
+	rw := map[*types.Named][]string{}
+	seenRoot := map[*ssa.Function]bool{}
+	for _, fn := range p.AllFuncs {
+		top := TopFunc(fn)
+		if top.Pkg == nil || IsTestSupportPkg(RelPkg(top.Pkg.Pkg)) {
+			continue
+		}
+		for _, b := range fn.Blocks {
+			for _, in := range b.Instrs {
+				fa, ok := in.(*ssa.FieldAddr)
+				if !ok {
+					continue
+				}
+				owner, st := c14StructOf(fa.X.Type())
+				if !c14InModuleType(owner) {
+					continue
+				}
+				ft := st.Field(fa.Field).Type()
+				hit := false
+				if pt, ok := ft.Underlying().(*types.Pointer); ok {
+					if T, _ := c14StructOf(pt.Elem()); T != nil && sm.lockConfigurable(T) {
+						unsync = append(unsync, c14OwnedAccess{fn, fa, owner, T})
+						hit = true
+					}
+				}
+				rws, ok := rw[owner]
+				if !ok {
+					rws = c14RWFields(owner)
+					rw[owner] = rws
+				}
+				if len(rws) > 0 && !c14IsSyncType(ft) && guards[owner][fa.Field] == nil {
+					rl = append(rl, c14OwnedAccess{fn: fn, fa: fa, owner: owner})
+					hit = true
+				}
+				if hit && !seenRoot[top] {
+					seenRoot[top] = true
+					roots = append(roots, top)
+				}
+			}
+		}
+	}
+	return
+}
+
+// ownerPath: for a field address rendered "&P.f" returns P.
+func c14OwnerPath(fa *ssa.FieldAddr) (string, bool) {
+	ap := AccessPath(fa)
+	suffix := "." + fieldName(fa.X.Type(), fa.Field)
+	if strings.HasPrefix(ap, "&") && strings.HasSuffix(ap, suffix) {
+		return ap[1 : len(ap)-len(suffix)], true
+	}
+	return ap, false
+}
+
+func c14RuleUnsync(p *Program, r *Reporter, cx *c14Ctx, sm *c14Summ, accs []c14OwnedAccess) {
+	groups := map[c14FieldKey][]c14OwnedAccess{}
+	var keys []c14FieldKey
+	for _, a := range accs {
+		k := c14FieldKey{a.owner, a.fa.Field}
+		if _, ok := groups[k]; !ok {
+			keys = append(keys, k)
+		}
+		groups[k] = append(groups[k], a)
+	}
+	name := func(k c14FieldKey) string {
+		return RelPkg(k.owner.Obj().Pkg()) + "." + k.owner.Obj().Name() + "." + k.owner.Underlying().(*types.Struct).Field(k.idx).Name()
+	}
+	sort.Slice(keys, func(i, j int) bool { return name(keys[i]) < name(keys[j]) })
+	nOptOut := 0
+	for _, k := range keys {
+		as := groups[k]
+		T := as[0].T
+		fname := name(k)
+		site := p.Pos(as[0].fa.Pos())
+		reach := sm.reachOf(k, T)
+		optedOut := func(cfg c14Cfg) string {
+			for _, m := range sm.methodsOf(T) {
+				if o := sm.sum(m, 0, cfg, nil, 0).optOut; o != "" {
+					return o
+				}
+			}
+			return ""
+		}
+		var vias, outs, unks []string
+		for _, rc := range reach {
+			switch {
+			case rc.cfg == nil:
+				unks = append(unks, rc.via+rc.unknown)
+			case optedOut(rc.cfg) != "":
+				outs = append(outs, rc.via+" ["+c14CfgDesc(rc.cfg, T)+": "+optedOut(rc.cfg)+"]")
+			default:
+				vias = append(vias, rc.via+" ["+c14CfgDesc(rc.cfg, T)+"]")
+			}
+		}
+		tname := typeKey(T)
+		if len(reach) == 0 {
+			r.OKTable("L-unsync", fname+"#construction", site, "no non-test code stores a *"+tname+" in this field")
+			continue
+		}
+		if len(outs) == 0 && len(unks) == 0 {
+			r.OKTable("L-unsync", fname+"#construction", site, fmt.Sprintf("every *%s stored here locks itself: %s; its methods need no lock of the owner", tname, strings.Join(vias, "; ")))
+			continue
+		}
+		nOptOut++
+		// the object does not lock itself (or may not): every call that touches it needs the owner's lock
+		var common map[string]bool
+		nSites, nFresh, nBad := 0, 0, 0
+		for _, a := range as {
+			refs := a.fa.Referrers()
+			if refs == nil {
+				continue
+			}
+			ownerP, okP := c14OwnerPath(a.fa)
+			li := cx.lockInfo(TopFunc(a.fn))
+			for _, u := range *refs {
+				ld, ok := u.(*ssa.UnOp)
+				if !ok || ld.Op != token.MUL {
+					continue
+				}
+				for _, use := range c14PointeeUses(ld) {
+					if cx.fresh.freshAt(a.fa.X, use.at) {
+						nFresh++
+						continue
+					}
+					upos := p.Pos(c14InstrPos(use.at))
+					if use.callee == nil {
+						nSites++
+						nBad++
+						r.Undecided("L-unsync", FuncKey(a.fn)+"#"+fname+"#escape", upos, fmt.Sprintf("the *%s that does not lock itself (%s) is %s: its later uses are not followed", tname, strings.Join(append(outs, unks...), "; "), use.escape))
+						continue
+					}
+					mode, why, _ := sm.classify(use.callee, use.j, reach, c14ConstArgs(CallSite{use.at.Parent(), use.at.(ssa.CallInstruction)}, nil))
+					if mode == 'N' {
+						continue
+					}
+					nSites++
+					construct := FuncKey(a.fn) + "#" + fname + "." + use.callee.Name()
+					if mode == '?' {
+						nBad++
+						r.Undecided("L-unsync", construct, upos, fmt.Sprintf("cannot establish what %s does to the object (%s)", FuncKeyAny(use.callee), why))
+						continue
+					}
+					if !okP {
+						nBad++
+						r.Undecided("L-unsync", construct, upos, "cannot name the owning object ("+ownerP+")")
+						continue
+					}
+					held := li.HeldAt(use.at)
+					here := map[string]bool{}
+					for path, m := range held {
+						if strings.HasPrefix(path, "&"+ownerP+".") && (m == 'W' || mode == 'R') {
+							here[path[len("&"+ownerP):]] = true
+						}
+					}
+					verb := map[byte]string{'W': "mutates", 'R': "reads"}[mode]
+					need := map[byte]string{'W': "exclusively (sync.Mutex, or the write side of an RWMutex)", 'R': "(read side suffices)"}[mode]
+					if len(here) == 0 {
+						nBad++
+						msg := fmt.Sprintf("%s %s the *%s in %s.%s (%s), which does not lock itself (%s), without a mutex of %s held %s; held: %s (entry lockset of %s: %s)",
+							FuncKeyAny(use.callee), verb, tname, ownerP, fieldName(a.fa.X.Type(), a.fa.Field), why, strings.Join(append(outs, unks...), "; "), ownerP, need, held, FuncKey(TopFunc(a.fn)), c14EntryDesc(cx, TopFunc(a.fn)))
+						if mode == 'W' {
+							for _, m := range held {
+								if m == 'R' {
+									msg += "; a read lock admits several holders at once, so two of these calls race"
+									break
+								}
+							}
+						}
+						if len(outs) == 0 {
+							r.Undecided("L-unsync", construct, upos, msg+" — construction of the object could not be followed")
+						} else {
+							r.Violation("L-unsync", construct, upos, msg)
+						}
+						continue
+					}
+					var hs []string
+					for h := range here {
+						hs = append(hs, "&"+ownerP+h)
+					}
+					sort.Strings(hs)
+					r.OK("L-unsync", construct, upos, fmt.Sprintf("%s %s the object (%s); %s held %s", FuncKeyAny(use.callee), verb, why, strings.Join(hs, ","), need))
+					if mode == 'W' {
+						if common == nil {
+							common = here
+						} else {
+							for h := range common {
+								if !here[h] {
+									delete(common, h)
+								}
+							}
+						}
+					}
+				}
+			}
+		}
+		var cs []string
+		for h := range common {
+			cs = append(cs, h[1:])
+		}
+		sort.Strings(cs)
+		desc := fmt.Sprintf("*%s built not to lock itself: %s", tname, strings.Join(append(outs, unks...), "; "))
+		switch {
+		case nBad > 0:
+			r.Violation("L-unsync", fname+"#construction", site, fmt.Sprintf("%s; %d of %d call site(s) touch it without the owner's lock (see the site obligations)", desc, nBad, nSites))
+		case common != nil && len(common) == 0:
+			r.Violation("L-unsync", fname+"#construction", site, desc+"; its mutating call sites each hold some mutex of the owner but no single mutex is held exclusively at all of them")
+		default:
+			r.OK("L-unsync", fname+"#construction", site, fmt.Sprintf("%s; all %d call site(s) that touch it hold the owner's mutex %s as needed (%d more on a not-yet-published owner)", desc, nSites, strings.Join(cs, ","), nFresh))
+		}
+	}
+	r.Analysed("fields_holding_lock_configurable_objects", len(keys))
+	r.Analysed("of_which_not_self_locking", nOptOut)
+	r.Floor("L-unsync", 5)
+}
+
+func c14RuleRLock(p *Program, r *Reporter, cx *c14Ctx, accs []c14OwnedAccess) {
+	type gkey struct {
+		fn    *ssa.Function
+		field string
+	}
+	type ginfo struct {
+		site         string
+		nUnder, nMut int
+		bad          []string
+		locks        []string
+	}
+	groups := map[gkey]*ginfo{}
+	var order []gkey
+	get := func(k gkey, site string) *ginfo {
+		g, ok := groups[k]
+		if !ok {
+			g = &ginfo{site: site}
+			groups[k] = g
+			order = append(order, k)
+		}
+		return g
+	}
+	check := func(fn *ssa.Function, field string, site string, evs []c14Event, rlocks []string, fresh func(at ssa.Instruction) bool) {
+		li := cx.lockInfo(TopFunc(fn))
+		for _, ev := range evs {
+			held := li.HeldAt(ev.at)
+			rl := ""
+			anyW := false
+			for _, m := range held {
+				if m == 'W' {
+					anyW = true
+				}
+			}
+			for _, l := range rlocks {
+				if held[l] == 'R' {
+					rl = l
+				}
+			}
+			if rl == "" || anyW || fresh(ev.at) {
+				continue
+			}
+			g := get(gkey{fn, field}, site)
+			g.nUnder++
+			g.locks = append(g.locks, rl)
+			if ev.mode == 'W' && !ev.soft {
+				g.nMut++
+				g.bad = append(g.bad, fmt.Sprintf("%s at %s with only the read side of %s held (held: %s; entry lockset of %s: %s): a read lock admits several holders at once, so two executions of this write race", ev.what, p.Pos(c14InstrPos(ev.at)), rl, held, FuncKey(TopFunc(fn)), c14EntryDesc(cx, TopFunc(fn))))
+			}
+		}
+	}
+	for _, a := range accs {
+		ownerP, ok := c14OwnerPath(a.fa)
+		if !ok {
+			continue
+		}
+		var rlocks []string
+		for _, m := range c14RWFields(a.owner) {
+			rlocks = append(rlocks, "&"+ownerP+"."+m)
+		}
+		var evs []c14Event
+		c14AddrEvents(a.fa, false, &evs, map[ssa.Value]bool{})
+		field := a.owner.Obj().Name() + "." + fieldName(a.fa.X.Type(), a.fa.Field)
+		check(a.fn, field, p.Pos(a.fa.Pos()), evs, rlocks, func(at ssa.Instruction) bool { return cx.fresh.freshAt(a.fa.X, at) })
+	}
+	// package-level RWMutexes: writes to package-level variables of the same package
+	nGlob := 0
+	for _, sp := range p.SSA.AllPackages() {
+		if !strings.HasPrefix(sp.Pkg.Path(), modPrefix) || IsTestSupportPkg(RelPkg(sp.Pkg)) {
+			continue
+		}
+		var rlocks []string
+		for _, m := range sp.Members {
+			if g, ok := m.(*ssa.Global); ok && IsNamed(g.Type().(*types.Pointer).Elem(), "sync", "RWMutex") {
+				rlocks = append(rlocks, AccessPath(g))
+			}
+		}
+		if len(rlocks) == 0 {
+			continue
+		}
+		nGlob += len(rlocks)
+		for _, fn := range p.FuncsIn(RelPkg(sp.Pkg)) {
+			for _, b := range fn.Blocks {
+				for _, in := range b.Instrs {
+					var g *ssa.Global
+					var evs []c14Event
+					switch x := in.(type) {
+					case *ssa.Store:
+						if gg, ok := x.Addr.(*ssa.Global); ok && gg.Pkg == sp {
+							g = gg
+							evs = append(evs, c14Ev(x, 'W', "store", false))
+						}
+					case *ssa.UnOp:
+						if gg, ok := x.X.(*ssa.Global); ok && x.Op == token.MUL && gg.Pkg == sp {
+							g = gg
+							evs = append(evs, c14Ev(x, 'R', "load", false))
+							if c14IsContainer(x.Type()) {
+								c14ValueEvents(x, &evs, map[ssa.Value]bool{})
+							}
+						}
+					}
+					if g == nil || c14IsSyncType(g.Type().(*types.Pointer).Elem()) {
+						continue
+					}
+					check(fn, "var "+g.Name(), p.Pos(in.Pos()), evs, rlocks, func(ssa.Instruction) bool { return false })
+				}
+			}
+		}
+	}
+	for _, k := range order {
+		g := groups[k]
+		construct := FuncKey(k.fn) + "#" + k.field
+		if len(g.bad) > 0 {
+			r.Violation("L-rlock", construct, g.site, strings.Join(g.bad, " | "))
+			continue
+		}
+		r.OK("L-rlock", construct, g.site, fmt.Sprintf("%d access event(s) run with only the read side of %s held; none is a write (store, map update/delete, in-place element write, or call of a function whose body writes through the field)", g.nUnder, strings.Join(dedupe(g.locks), ",")))
+	}
+	r.Analysed("package_level_rwmutexes", nGlob)
+	r.Floor("L-rlock", 25)
 }
